@@ -129,6 +129,10 @@ def postconditions(defn, b):
     x0 = np.asarray(b.x0, dtype=float).ravel()
     if not (np.all(ol <= opl) and np.all(opl < opu) and np.all(opu <= ou)):
         out.append(("c:normalised-bounds-not-ordered", f"lb={ol.tolist()} plb={opl.tolist()} pub={opu.tolist()} ub={ou.tolist()}"))
+    tl, tu = np.asarray(vt.lb, dtype=float).ravel(), np.asarray(vt.ub, dtype=float).ravel()
+    tpl, tpu = np.asarray(vt.plb, dtype=float).ravel(), np.asarray(vt.pub, dtype=float).ravel()
+    if np.any(np.isnan(np.concatenate([tl, tu, tpl, tpu]))) or not (np.all(tl <= tpl) and np.all(tpl < tpu) and np.all(tpu <= tu)):
+        out.append(("c:normalised-internal-bounds-not-ordered", f"internal lb={tl.tolist()} plb={tpl.tolist()} pub={tpu.tolist()} ub={tu.tolist()}"))
     if not np.all(np.isfinite(x0)):
         out.append(("c:x0-not-finite", f"x0={x0.tolist()}"))
     else:
